@@ -142,6 +142,11 @@ pub fn random_connected(rng: &mut Rng, n: usize, maxports: usize, holes: bool) -
             used[p] = true;
             Some(p)
         } else if used.len() < maxports {
+            // now and then leave a lower port dangling, so that links enter/leave nodes at
+            // different offsets (needed e.g. for hosts onto which a chain folds non-injectively)
+            if used.len() + 1 < maxports && rng.chance(1, 5) {
+                used.push(false);
+            }
             used.push(true);
             Some(used.len() - 1)
         } else if !free.is_empty() {
@@ -329,6 +334,43 @@ pub fn decoy_hosts(p: &GDesc) -> Vec<GDesc> {
     out
 }
 
+/// Systematic "folded" hosts: the pattern with all links of one node `v` moved onto another node
+/// `u` at the same port offsets (only when no two links then share a port). The pattern maps onto
+/// such a host by a link-preserving but NON-injective map (`v` and `u` both go to `u`): a matcher
+/// that forgets an inequality between `u` and `v` reports it, the embedding oracle (C01) rejects it.
+pub fn fold_hosts(p: &GDesc) -> Vec<GDesc> {
+    let mut out = vec![];
+    let live = p.live();
+    for &u in &live {
+        for &v in &live {
+            if u == v {
+                continue;
+            }
+            let mv = |n: usize| if n == v { u } else { n };
+            let links: Vec<((usize, usize), (usize, usize))> =
+                p.links.iter().map(|((a, oa), (b, ob))| ((mv(*a), *oa), (mv(*b), *ob))).collect();
+            let mut ok = true;
+            for (i, (o1, i1)) in links.iter().enumerate() {
+                for (o2, i2) in links.iter().skip(i + 1) {
+                    if o1 == o2 || i1 == i2 {
+                        ok = false;
+                    }
+                }
+            }
+            if !ok {
+                continue;
+            }
+            let (ui, uo) = p.nodes[u].unwrap();
+            let (vi, vo) = p.nodes[v].unwrap();
+            let mut h = p.clone();
+            h.links = links;
+            h.nodes[u] = Some((ui.max(vi), uo.max(vo)));
+            out.push(h);
+        }
+    }
+    out
+}
+
 pub type PgPat = (GDesc, Option<usize>);
 
 pub fn pg_case(
@@ -461,6 +503,13 @@ pub fn run_e2e(seed: u64, thorough: bool, n: usize) {
         if rng.chance(1, 4) {
             // the pattern plus one extra link to a fresh node
             let d = decoy_hosts(&rng.pick(&pats).0);
+            if !d.is_empty() {
+                hosts.push(rng.pick(&d).clone());
+            }
+        }
+        if rng.chance(1, 3) {
+            // the pattern folded onto itself (two nodes identified): no occurrence by an injective map
+            let d = fold_hosts(&rng.pick(&pats).0);
             if !d.is_empty() {
                 hosts.push(rng.pick(&d).clone());
             }
@@ -733,6 +782,18 @@ pub fn run_tree_families(seed: u64, thorough: bool) {
             l.list(&family, |l, c| enc_pgcons(l, c));
             l.arrow();
             enc_tree(&mut l, &t, enc_pgcons);
+            l.emit();
+        }
+        // conditioned() across patterns
+        {
+            let c = rng.pick(&family).clone();
+            let sat: Vec<&PGConstraint> = family.iter().filter(|x| **x != c && rng.chance(1, 2)).collect();
+            let mut l = Line::new("PGD");
+            enc_pgcons(&mut l, &c);
+            l.list(&sat, |l, c| enc_pgcons(l, c));
+            l.arrow();
+            let r = PGPredicate::conditioned(&c, &sat);
+            l.opt(&r, |l, c| enc_pgcons(l, c));
             l.emit();
         }
         // host + injective bindings
